@@ -1,5 +1,6 @@
 # C29 - smart protocol bodies survive the wire unchanged, whatever the segmentation (length-prefixed bodies of protocol v1/v2).
 include("_lpd_model.py")
+include("_p3_model.py")
 
 # ---- the buffer helpers of _StatefulDecoder
 GETB = verified(("LengthPrefixedBodyDecoder", "_get_in_buffer"), result=BYTES, modifies=["self._in_buffer_list"],
@@ -92,3 +93,12 @@ lemma("finished_means_the_whole_body_and_exactly_the_trailing_bytes",
           Implies(st == "_state_accept_reading_unused", And(taken + body == Body(), unused == Extra()[0:Len(unused)], nbuf == 0))],
       lambda st, body, taken, unused, fin, nbuf: Implies(fin, And(taken + body == Body(), unused == Extra()[0:Len(unused)])),
       note="everything handed to the reader plus what is still buffered is exactly the encoded body; unused_data is a prefix of what followed the message")
+
+# ---- protocol v3 framing (ProtocolThreeDecoder)
+include("_p3_targets.py")
+
+undecided("the chunked body decoder (ChunkedBodyDecoder), the bencoding of structures (fastbencode, Rust) and the request/response handlers "
+          "behind the v3 message handler interface: not under contract")
+undecided("v3 is proved per part (what one step takes out of the buffer, what it hands to the handler and in which decoder state); the "
+          "whole-message statement follows by induction over the parts, which is exercised natively for every 1-cut and byte-wise "
+          "segmentation by the replay scenarios but not stated as one machine-checked lemma")
